@@ -74,7 +74,7 @@ func (s *BarGraph) WriteBar(idx int, key string, vals ...int64) {
 
 	s.rows[idx] = barGraphPair{
 		name: key,
-		vals: vals,
+		vals: append([]int64(nil), vals...), // a copy: the caller's slice (the aggregator's own) changes under us
 	}
 
 	// Compute the updated max
